@@ -102,13 +102,161 @@ def gen_e2e(rng, n):
     return cases
 
 
+def ops_of(c, side):
+    """operations of one side of a case; a case without history has one allocation in slot 0"""
+    if "ops" + side in c:
+        return c["ops" + side]
+    return [("M", 0, c["s" + side], c["sh" + side])]
+
+
+def ops_txt(ops):
+    out = [len(ops)]
+    for o in ops:
+        if o[0] == "M":
+            out += ["M", o[1], o[2], len(o[3])] + [v for b in o[3] for v in b]
+        else:
+            out += ["F", o[1]]
+    return out
+
+
 def e2e_line(c):
-    return " ".join(map(str, [c["mode"], c["sS"], len(c["shS"])] + [v for b in c["shS"] for v in b] + [c["offS"], c["sR"], len(c["shR"])] +
-                        [v for b in c["shR"] for v in b] + [c["offR"], c["nS"], c["nR"], len(c["xs"])] + c["xs"]))
+    return " ".join(map(str, [c["mode"]] + ops_txt(ops_of(c, "S")) + ops_txt(ops_of(c, "R")) +
+                        [c.get("slotS", 0), c["offS"], c.get("slotR", 0), c["offR"], c["nS"], c["nR"], len(c["xs"])] + c["xs"]))
+
+
+def hist_layout(rng, size, other=None):
+    """shared blocks (byte offsets) of an allocation of `size` bytes: the whole of it (SMPI_SHARED_MALLOC), a head or a tail,
+    the complement of another layout's first block, or random blocks with page-aligned or odd bounds"""
+    k = rng.below(6)
+    if k == 0:
+        return [(0, size)]
+    if k == 1:
+        return [(0, min(rng.range(1, 3) * PAGE, size))]             # head shared, rest private
+    if k == 2:
+        return [(min(rng.range(1, 3) * PAGE, size - PAGE), size)]   # head private, rest shared
+    if k == 3 and other and other[0][0] > 0:
+        return [(0, min(other[0][0], size - PAGE))]                 # shared exactly where the other layout starts private
+    sh, pos = [], 0
+    for _ in range(rng.range(1, 3)):
+        b = pos + rng.range(0, 4) * PAGE + rng.choice([0, 0, 1, 17, 2048])
+        e = b + rng.range(1, 5) * PAGE + rng.choice([0, 0, 1, 100])
+        if e >= size:
+            break
+        sh.append((b, e))
+        pos = e + 1
+    return sh or [(PAGE, 2 * PAGE)]
+
+
+def gen_history(rng):
+    """operations of one side: allocations and frees over up to 4 slots, ending with at least one live shared slot.
+    Returns (ops, slot used for the message, its size, its shared blocks, candidate offsets).  Shapes: free then a LARGER /
+    SMALLER / EQUAL allocation with another layout (the kernel reuses the freed range: top-down mmap puts a larger mapping
+    over it, starting below the old address), a hole between two live allocations refilled, random sequences."""
+    shape = rng.below(6)
+    pages = lambda lo, hi: rng.range(lo, hi) * PAGE
+    ops, live, cands = [], {}, []
+    def M(slot, size, other=None):
+        sh = hist_layout(rng, size, other)
+        ops.append(("M", slot, size, sh))
+        live[slot] = (size, sh)
+        return sh
+    def F(slot):
+        ops.append(("F", slot))
+        return live.pop(slot)
+    if shape in (0, 1):                                   # regrow: the new, larger allocation covers the freed one
+        s1 = pages(8, 64)
+        l1 = M(0, s1)
+        F(0)
+        s2 = s1 + pages(1, 64)
+        M(1, s2, l1)
+        use = 1
+        cands = [s2 - s1 + d for d in (0, 1, PAGE, 2 * PAGE, 2 * PAGE + 100, rng.range(0, s1 - 1))]      # above the old start address
+        cands += [rng.range(0, s2 - s1)]                  # below it
+    elif shape == 2:                                      # shrink / same size
+        s1 = pages(8, 64)
+        l1 = M(0, s1)
+        F(0)
+        s2 = rng.choice([s1, s1, max(s1 - pages(1, 6), 2 * PAGE)])
+        M(1, s2, l1)
+        use = 1
+    elif shape == 3:                                      # a hole between live allocations is refilled
+        for k in range(3):
+            M(k, pages(4, 32))
+        s1, l1 = F(1)
+        s2 = rng.choice([s1, s1 + pages(1, 8), max(s1 - pages(1, 3), 2 * PAGE)])
+        M(3, s2, l1)
+        if rng.chance(1, 2):
+            s0, l0 = F(0)
+            M(0, s0 + pages(1, 16), l0)
+            use = rng.choice([0, 3])
+        else:
+            use = rng.choice([0, 2, 3])
+    elif shape == 4:                                      # several generations at growing sizes
+        s, l = pages(4, 16), None
+        for g in range(rng.range(2, 4)):
+            l = M(g % 2, s, l)
+            F(g % 2)
+            s += pages(1, 16)
+        M(2, s, l)
+        use = 2
+    else:                                                 # random sequence
+        for _ in range(rng.range(3, 7)):
+            free_slots = [k for k in range(4) if k not in live]
+            if live and (not free_slots or rng.chance(2, 5)):
+                F(rng.choice(sorted(live)))
+            else:
+                M(rng.choice(free_slots), pages(2, 48))
+        if not live:
+            M(0, pages(8, 48))
+        use = rng.choice(sorted(live))
+    size, sh = live[use]
+    return ops, use, size, sh, cands
+
+
+def gen_hist_cases(rng, n):
+    """end-to-end cases with allocation histories on the sender's side, the receiver's side, or both"""
+    cases = []
+    for _ in range(n):
+        mode = rng.choice(["e", "b", "r", "r"])
+        who = rng.choice(["S", "R", "R", "SR"])
+        side = {}
+        for x in "SR":
+            if x in who:
+                ops, use, size, sh, cands = gen_history(rng)
+            else:
+                size, sh = e2e_alloc(rng)
+                ops, use, cands = [("M", 0, size, sh)], 0, []
+            side[x] = (ops, use, size, sh, cands)
+        off = {}
+        for x in "SR":
+            ops, use, size, sh, cands = side[x]
+            c = [0, rng.range(0, size // 2)] + [max(v - rng.choice([0, 1, 50]), 0) for v in e2e_bounds(sh)] + cands * 3
+            off[x] = min(rng.choice(c), size - 64)
+        room = min(side["S"][2] - off["S"], side["R"][2] - off["R"])
+        nS = rng.range(1, room)
+        if mode == "e":
+            nS = min(nS, 60000)
+        nR = min(nS + rng.choice([0, 0, 64]), side["R"][2] - off["R"])
+        xs = {0, 1, nS - 1, max(nS - 2, 0), nR - 1}
+        for x in "SR":
+            for ops_ in side[x][0]:                       # bounds of every layout of the history, the stale ones included
+                if ops_[0] == "M":
+                    for v in e2e_bounds(ops_[3]) + [b for blk in ops_[3] for b in blk]:
+                        for w in (v, v + side[x][2] - ops_[2]):
+                            xs |= {w - off[x] - 1, w - off[x], w - off[x] + 1}
+        for _ in range(40):
+            xs.add(rng.range(0, nR - 1))
+        xs = sorted(x for x in xs if 0 <= x < nR)[:160]
+        cases.append({"mode": mode, "opsS": side["S"][0], "slotS": side["S"][1], "offS": off["S"], "opsR": side["R"][0],
+                      "slotR": side["R"][1], "offR": off["R"], "nS": nS, "nR": nR, "xs": xs, "hist": who,
+                      "shS": side["S"][3], "shR": side["R"][3]})
+    return cases
 
 
 def run_e2e(ctx, drv, fixed, cases):
-    """run e2e.cpp under smpirun -np 2 and judge every case with the Lean model of the send modes (Modes.lean)"""
+    """run e2e.cpp under smpirun -np 2; the log (allocations with the addresses the kernel chose, frees, smpi_is_shared
+    probes, transfers) is replayed in order through the Lean state machine of the allocation table (Alloc.lean) and every
+    transfer is judged with the model of the send modes (Modes.lean)"""
     h = ctx.build_harness("e2e.cpp", smpi=True, lang="c++")
     if not h:
         return
@@ -119,45 +267,89 @@ def run_e2e(ctx, drv, fixed, cases):
     cmd = [os.path.join(core.SGBUILD, "smpi_script", "bin", "smpirun"), "-np", "2", "-platform", plat, "-hostfile", hosts,
            "--log=root.thres:critical", "--cfg=smpi/shared-malloc-blocksize:%d" % PAGE, h, script]
     try:
-        p = core.sh(cmd, timeout=600, env=ctx.sg_env(), cwd=ctx.work)
+        p = core.sh(cmd, timeout=900, env=ctx.sg_env(), cwd=ctx.work)
     except Exception as e:
         ctx.broken.append({"kind": "e2e-run", "error": str(e)[:500]})
         return
     if p.returncode != 0:
         ctx.broken.append({"kind": "e2e-run", "rc": p.returncode, "stderr": p.stderr[-1500:]})
         return
-    rec = {}
+    qs, owners, rec = [], [], {}
+    freed, reuse = [], {"covers-freed-base-from-below": 0, "same-base": 0, "inside-freed-range": 0, "elsewhere": 0}
     for l in p.stdout.split("\n"):
         t = l.split()
-        if len(t) >= 2 and t[0] in "SVDBA" and t[1].isdigit():
-            rec.setdefault(int(t[1]), {})[t[0]] = t[2:]
-    qs, owners = [], []
-    for i, c in enumerate(cases):
-        r = rec.get(i, {})
-        if not all(k in r for k in "SVDBA") or not (len(r["V"]) == len(r["B"]) == len(r["A"]) == len(c["xs"])):
-            ctx.broken.append({"kind": "e2e-output", "case": c, "got": {k: v[:10] for k, v in r.items()}})
+        if len(t) < 2 or not t[1].isdigit():
             continue
-        trip = " ".join("%d %s %s" % (x, sv, dv) for x, sv, dv in zip(c["xs"], r["V"], r["B"]))
-        qs.append("E2 %s %d %d | %s | %s | %s => %s" % (c["mode"], c["nS"], c["nR"], " ".join(r["S"]), " ".join(r["D"]), trip,
-                                                      " ".join(r["A"])))
-        owners.append(c)
+        i = int(t[1])
+        if t[0] == "AM" and len(t) >= 6:
+            addr, size = int(t[3]), int(t[4])
+            qs.append("AM %d %d | %s => ." % (addr, size, " ".join(t[6:])))
+            owners.append(i)
+            kinds = set()
+            for fa, fs in freed:
+                if addr < fa < addr + size:
+                    kinds.add("covers-freed-base-from-below")
+                elif addr == fa:
+                    kinds.add("same-base")
+                elif fa < addr < fa + fs:
+                    kinds.add("inside-freed-range")
+            for k in kinds or {"elsewhere"}:
+                reuse[k] += 1
+            freed = [(fa, fs) for fa, fs in freed if fa + fs <= addr or addr + size <= fa]
+        elif t[0] == "AF" and len(t) == 4:
+            qs.append("AF %s => ." % t[3])
+            owners.append(i)
+            freed.append((int(t[3]), rec.get(("size", t[3]), 0)))
+        elif t[0] == "AP" and len(t) >= 5:
+            qs.append("AP %s => %s" % (t[3], " ".join(t[4:])))
+            owners.append(i)
+        elif t[0] in "SVDBA" and len(t[0]) == 1:
+            rec.setdefault(i, {})[t[0]] = t[2:]
+            if t[0] == "A" and i < len(cases):
+                c, r = cases[i], rec[i]
+                if not all(k in r for k in "SVDBA") or not (len(r["V"]) == len(r["B"]) == len(r["A"]) == len(c["xs"])):
+                    ctx.broken.append({"kind": "e2e-output", "case": c, "got": {k: v[:10] for k, v in r.items()}})
+                    continue
+                trip = " ".join("%d %s %s" % (x, sv, dv) for x, sv, dv in zip(c["xs"], r["V"], r["B"]))
+                qs.append("E3 %s %d %d %s %s | %s | %s | %s => %s" % (c["mode"], c["nS"], c["nR"], r["S"][0], r["D"][0],
+                                                                     " ".join(r["S"][1:]), " ".join(r["D"][1:]), trip, " ".join(r["A"])))
+                owners.append(i)
+        if t[0] == "AM" and len(t) >= 6:
+            rec[("size", t[3])] = int(t[4])
+    done = set(i for q, i in zip(qs, owners) if q.startswith("E3"))
+    for i, c in enumerate(cases):
+        if i not in done:
+            ctx.broken.append({"kind": "e2e-output", "case": c, "got": "no transfer in the log"})
     rc, verdicts, err = ctx.run_lines([drv] + (["fixed"] if fixed else []), qs)
     if rc != 0 or not verdicts or verdicts[-1] != "END %d" % len(qs):
         ctx.broken.append({"kind": "driver-run-e2e", "rc": rc, "stderr": err[-2000:]})
         return
-    modes = {}
-    for q, v, c in zip(qs, verdicts, owners):
+    modes, hist, probes = {}, {}, 0
+    reported = set()
+    for q, v, i in zip(qs, verdicts, owners):
+        c = cases[i]
         ctx.cov["evaluations"] += 1
-        modes[c["mode"]] = modes.get(c["mode"], 0) + 1
+        kind = q.split()[0]
+        if kind == "AP":
+            probes += 1
         if v == "ok":
             ctx.cov["traces_validated_against_impl"] += 1
-            if c["shS"] or c["shR"]:
-                ctx.cov["distinct_nontrivial"] += 1
+            if kind == "E3":
+                modes[c["mode"]] = modes.get(c["mode"], 0) + 1
+                hist[c.get("hist", "-")] = hist.get(c.get("hist", "-"), 0) + 1
+                if c["shS"] or c["shR"]:
+                    ctx.cov["distinct_nontrivial"] += 1
         elif v.startswith("MONFAIL"):
-            ctx.violation(v[:400], {"e2e": c, "query": q[:1500]}, key=None)
+            # the stored case re-runs the whole prefix: the table of allocations is a state shared by the cases of a run
+            if i not in reported:
+                ctx.violation(v[:700], {"e2e": c, "e2e_cases": cases[:i + 1], "query": q[:1500]}, key=None)
+                reported.add(i)
         elif len(ctx.broken) < 40:
-            ctx.broken.append({"kind": "correspondence-e2e", "case": c, "verdict": v[:600]})
+            ctx.broken.append({"kind": "correspondence-e2e", "case": c, "line": q[:300], "verdict": v[:600]})
     ctx.cov["e2e_cases_by_mode"] = modes
+    ctx.cov["e2e_cases_by_history_side"] = hist
+    ctx.cov["e2e_lookup_probes"] = probes
+    ctx.cov["e2e_placement_of_new_allocations_wrt_freed_ranges"] = reuse
 
 
 def gen(rng, n):
@@ -194,8 +386,9 @@ def run(ctx):
                        "(SF/MG/CP) or the `IGN` decision for a message without private bytes")
     ctx.assumptions += ["the copy itself (memcpy_private, the temporary buffer of the privatization path, the early returns) is modelled and "
                         "proved but tied to the code by reading only: the harness composes the two real exported block functions as the "
-                        "callback does; the end-to-end MPI transfer (eager / detached / rendezvous) is not exercised",
-                        "smpi_is_shared's metadata lookup (which allocation, which offset) is not modelled"]
+                        "callback does; the end-to-end MPI program samples byte positions (bounds of every layout of the history +- 1, message ends, random)",
+                        "the addresses returned by mmap are inputs of the allocation-table model; its theorems assume that a new "
+                        "mapping does not overlap a live one (checked on every logged allocation); global shared-malloc mode only"]
     ctx.ensure_simgrid(["simgrid"])
     ctx.lean_prove()
     drv = ctx.lean_exe()
@@ -208,7 +401,11 @@ def run(ctx):
         n *= 10
     corpus = [l.strip() for l in open(ctx.pdir + "/corpus.txt") if l.strip() and not l.startswith("#")]
     if ctx.replay:
-        queries = [json.load(open(ctx.replay))["case"]["query"]]
+        rcase = json.load(open(ctx.replay))["case"]
+        if "e2e_cases" in rcase:                         # an end-to-end violation: re-run the stored cases (the whole prefix)
+            run_e2e(ctx, drv, fixed, [dict(c, xs=list(c["xs"])) for c in rcase["e2e_cases"]])
+            return
+        queries = [rcase["query"]]
     else:
         queries = list(dict.fromkeys(corpus + gen(SplitMix(ctx.seed), n)))
     pre = os.environ.get("VERIF_C35_PRELOAD")           # e.g. a patched smpi_shared.cpp built as a shared object (mutation testing)
@@ -238,9 +435,24 @@ def run(ctx):
             ctx.broken.append({"kind": "correspondence", "case": case})
     ctx.cov["distribution"] = kinds
     if not ctx.replay:
-        # end to end: real MPI transfers between partially shared buffers in the three send modes, judged with Modes.lean
+        # end to end: real MPI transfers between partially shared buffers in the three send modes, after histories of
+        # allocations and frees on either side; judged with Alloc.lean (table) + Modes.lean (modes)
         ne = 40 if ctx.tier == "quick" else 400
+        nh = 60 if ctx.tier == "quick" else 600
+        if ctx.broken:
+            nh *= 4
         e2e_corpus = [{"mode": m, "sS": 40960, "shS": [(8192, 16384)], "offS": 100, "sR": 40960, "shR": [(20480, 28672)], "offR": 50,
                        "nS": 20000, "nR": 20000, "xs": [0, 1, 8091, 8092, 8093, 16283, 16284, 19999]} for m in ("e", "r", "b")]
-        run_e2e(ctx, drv, fixed, e2e_corpus + gen_e2e(SplitMix(ctx.seed).fork(77), ne))
+        # a freed allocation (first page private) followed by a larger one with the complementary layout, message above the
+        # old start address, on the receiver's and on the sender's side
+        big = [("M", 0, 64 * PAGE, [(PAGE, 64 * PAGE)]), ("F", 0), ("M", 1, 128 * PAGE, [(0, PAGE)])]
+        one = [("M", 0, 40 * PAGE, [(8192, 16384)])]
+        for m in ("e", "r", "b"):
+            for who in ("R", "S"):
+                e2e_corpus.append({"mode": m, "opsS": big if who == "S" else one, "slotS": 1 if who == "S" else 0,
+                                   "offS": 66 * PAGE if who == "S" else 100, "opsR": big if who == "R" else one,
+                                   "slotR": 1 if who == "R" else 0, "offR": 66 * PAGE + 7 if who == "R" else 50, "nS": 30000, "nR": 30000,
+                                   "xs": [0, 1, 2, 100, 4095, 4096, 8091, 8092, 16283, 16284, 20000, 29998, 29999], "hist": who,
+                                   "shS": [(0, PAGE)], "shR": [(0, PAGE)]})
+        run_e2e(ctx, drv, fixed, e2e_corpus + gen_e2e(SplitMix(ctx.seed).fork(77), ne) + gen_hist_cases(SplitMix(ctx.seed).fork(78), nh))
     ctx.cov["samples"] = out[:2] + out[len(corpus):len(corpus) + 4]
